@@ -429,9 +429,9 @@ pub proof fn lemma_set_allow(s: Raw, o: Seq<char>, sp: Seq<char>, a: AllowanceRe
 @fn contracts/cw20-base/src/allowances.rs deduct_allowance [closures: 1]
 @requires
     inv_mirror(old(storage).view())
-@ensures C02.deduct_exact C19
+@ensures C02.deduct_exact C19 C20
     r is Ok ==> step_deduct(old(storage).view(), final(storage).view(), owner@, spender@, amount@, block)
-@ensures C19.deduct_mirror
+@ensures C19.deduct_mirror C20
     r is Ok ==> inv_mirror(final(storage).view())
 @closure 1 C02.deduct_closure
     (res: Result<AllowanceResponse, ContractError>)
@@ -452,9 +452,9 @@ pub proof fn lemma_set_allow(s: Raw, o: Seq<char>, sp: Seq<char>, a: AllowanceRe
 @fn contracts/cw20-base/src/allowances.rs execute_increase_allowance [closures: 1]
 @requires
     inv(old(deps.storage).view())
-@ensures C02.increase_exact C19
+@ensures C02.increase_exact C19 C20
     r is Ok ==> step_increase(old(deps.storage).view(), final(deps.storage).view(), info.sender@, spender@, amount@, expires, &env.block)
-@ensures C19.increase_inv C01 C13
+@ensures C19.increase_inv C01 C13 C20
     r is Ok ==> inv(final(deps.storage).view())
 @ensures C02.increase_nomsg
     r is Ok ==> r->Ok_0.messages@.len() == 0
@@ -480,9 +480,9 @@ pub proof fn lemma_set_allow(s: Raw, o: Seq<char>, sp: Seq<char>, a: AllowanceRe
 @fn contracts/cw20-base/src/allowances.rs execute_decrease_allowance
 @requires
     inv(old(deps.storage).view())
-@ensures C02.decrease_exact C19
+@ensures C02.decrease_exact C19 C20
     r is Ok ==> step_decrease(old(deps.storage).view(), final(deps.storage).view(), info.sender@, spender@, amount@, expires, &env.block)
-@ensures C19.decrease_inv C01 C13
+@ensures C19.decrease_inv C01 C13 C20
     r is Ok ==> inv(final(deps.storage).view())
 @ensures C02.decrease_nomsg
     r is Ok ==> r->Ok_0.messages@.len() == 0
@@ -503,10 +503,10 @@ pub proof fn lemma_set_allow(s: Raw, o: Seq<char>, sp: Seq<char>, a: AllowanceRe
 @fn contracts/cw20-base/src/allowances.rs execute_transfer_from [closures: 2]
 @requires
     inv(old(deps.storage).view())
-@ensures C02.transfer_from_exact C01 C19
+@ensures C02.transfer_from_exact C01 C19 C20
     r is Ok ==> step_deduct(old(deps.storage).view(), after_deduct(old(deps.storage).view(), owner@, info.sender@, amount@), owner@, info.sender@, amount@, &env.block)
         && step_transfer(after_deduct(old(deps.storage).view(), owner@, info.sender@, amount@), final(deps.storage).view(), owner@, recipient@, amount@)
-@ensures C01.transfer_from_inv C13 C19
+@ensures C01.transfer_from_inv C13 C19 C20
     r is Ok ==> inv(final(deps.storage).view())
 @ensures C02.transfer_from_nomsg
     r is Ok ==> r->Ok_0.messages@.len() == 0
@@ -530,10 +530,10 @@ pub proof fn lemma_set_allow(s: Raw, o: Seq<char>, sp: Seq<char>, a: AllowanceRe
 @fn contracts/cw20-base/src/allowances.rs execute_burn_from [closures: 2]
 @requires
     inv(old(deps.storage).view())
-@ensures C02.burn_from_exact C01 C19
+@ensures C02.burn_from_exact C01 C19 C20
     r is Ok ==> step_deduct(old(deps.storage).view(), after_deduct(old(deps.storage).view(), owner@, info.sender@, amount@), owner@, info.sender@, amount@, &env.block)
         && step_burn(after_deduct(old(deps.storage).view(), owner@, info.sender@, amount@), final(deps.storage).view(), owner@, amount@)
-@ensures C01.burn_from_inv C13 C19
+@ensures C01.burn_from_inv C13 C19 C20
     r is Ok ==> inv(final(deps.storage).view())
 @ensures C02.burn_from_nomsg
     r is Ok ==> r->Ok_0.messages@.len() == 0
@@ -557,10 +557,10 @@ pub proof fn lemma_set_allow(s: Raw, o: Seq<char>, sp: Seq<char>, a: AllowanceRe
 @fn contracts/cw20-base/src/allowances.rs execute_send_from [closures: 2]
 @requires
     inv(old(deps.storage).view())
-@ensures C02.send_from_exact C01 C19
+@ensures C02.send_from_exact C01 C19 C20
     r is Ok ==> step_deduct(old(deps.storage).view(), after_deduct(old(deps.storage).view(), owner@, info.sender@, amount@), owner@, info.sender@, amount@, &env.block)
         && step_transfer(after_deduct(old(deps.storage).view(), owner@, info.sender@, amount@), final(deps.storage).view(), owner@, contract@, amount@)
-@ensures C01.send_from_inv C13 C19
+@ensures C01.send_from_inv C13 C19 C20
     r is Ok ==> inv(final(deps.storage).view())
 @ensures C02.send_from_notifies_once
     r is Ok ==> r->Ok_0.messages@.len() == 1 && is_receive_msg(r->Ok_0.messages@[0], contract@, info.sender@, amount, msg)
@@ -582,7 +582,7 @@ pub proof fn lemma_set_allow(s: Raw, o: Seq<char>, sp: Seq<char>, a: AllowanceRe
 @end
 
 @fn contracts/cw20-base/src/allowances.rs query_allowance
-@ensures C19.query_allowance
+@ensures C19.query_allowance C20
     r is Ok ==> r->Ok_0 == allow_or_default(deps.storage.view(), owner@, spender@)
 @end
 
@@ -670,7 +670,7 @@ pub proof fn lemma_no_balances_zero(s: Raw)
     r is Ok ==> total_bal(final(deps).storage.view()) == r->Ok_0@
 @ensures C01.create_balances
     r is Ok ==> forall|j: int| 0 <= j < accounts@.len() ==> bal(final(deps).storage.view(), (#[trigger] accounts@[j]).address@) == accounts@[j].amount@
-@ensures C01.create_frame C13 C19
+@ensures C01.create_frame C13 C19 C20
     same_outside_balances(old(deps).storage.view(), final(deps).storage.view())
 @ensures C01.create_deps_frame
     final(deps).api == old(deps).api, final(deps).querier == old(deps).querier,
@@ -761,7 +761,7 @@ pub proof fn lemma_side_write(s: Raw, k: Seq<u8>, v: Seq<u8>)
 @fn contracts/cw20-base/src/contract.rs instantiate
 @requires
     old(deps.storage).view() == SMap::<Seq<u8>, Seq<u8>>::empty()
-@ensures C01.instantiate_inv C13 C19
+@ensures C01.instantiate_inv C13 C19 C20
     r is Ok ==> inv(final(deps.storage).view())
 @ensures C01.instantiate_balances
     r is Ok ==> forall|j: int| 0 <= j < msg.initial_balances@.len() ==> bal(final(deps.storage).view(), (#[trigger] msg.initial_balances@[j]).address@) == msg.initial_balances@[j].amount@
@@ -810,9 +810,9 @@ pub open spec fn step_side(s: Raw, t: Raw) -> bool {
 @fn contracts/cw20-base/src/contract.rs execute_update_marketing
 @requires
     inv(old(deps.storage).view())
-@ensures C01.update_marketing_frame C02 C13 C19
+@ensures C01.update_marketing_frame C02 C13 C19 C20
     r is Ok ==> step_side(old(deps.storage).view(), final(deps.storage).view())
-@ensures C01.update_marketing_inv C13 C19
+@ensures C01.update_marketing_inv C13 C19 C20
     r is Ok ==> inv(final(deps.storage).view())
 @ensures C02.update_marketing_nomsg
     r is Ok ==> r->Ok_0.messages@.len() == 0
@@ -830,9 +830,9 @@ pub open spec fn step_side(s: Raw, t: Raw) -> bool {
 @fn contracts/cw20-base/src/contract.rs execute_upload_logo
 @requires
     inv(old(deps.storage).view())
-@ensures C01.upload_logo_frame C02 C13 C19
+@ensures C01.upload_logo_frame C02 C13 C19 C20
     r is Ok ==> step_side(old(deps.storage).view(), final(deps.storage).view())
-@ensures C01.upload_logo_inv C13 C19
+@ensures C01.upload_logo_inv C13 C19 C20
     r is Ok ==> inv(final(deps.storage).view())
 @ensures C02.upload_logo_nomsg
     r is Ok ==> r->Ok_0.messages@.len() == 0
@@ -888,9 +888,9 @@ pub open spec fn notify_ok(msgs: Seq<SubMsg<Empty>>, sender: Seq<char>, msg: Cw2
 @fn contracts/cw20-base/src/contract.rs execute
 @requires
     inv(old(deps.storage).view())
-@ensures C01.execute_step C02 C13 C19
+@ensures C01.execute_step C02 C13 C19 C20
     r is Ok ==> step_execute(old(deps.storage).view(), final(deps.storage).view(), info.sender@, &env.block, msg)
-@ensures C01.execute_inv C13 C19
+@ensures C01.execute_inv C13 C19 C20
     r is Ok ==> inv(final(deps.storage).view())
 @ensures C02.execute_notify
     r is Ok ==> notify_ok(r->Ok_0.messages@, info.sender@, msg)
